@@ -20,6 +20,10 @@ CLAIMED['C04'] = dict(text='Coq theorems (unbounded): operation() = NumPy-broadc
              note='Open known finding F6 (pow identity) is listed in KNOWN_FINDINGS.txt and reported as KNOWN-FINDING. Arithmetic is over exact rationals (generators produce dyadic data; power with integer exponents); ndarray right operand and reflected operators validated by correspondence.', tech='Coq proof (refinement to align + elementwise op) + vm_compute correspondence', ref='3.4')
 CLAIMED['C12'] = dict(text='Coq theorems (unbounded): stack succeeds only when every input, after optional alignment and reordering BY NAME to the first input\'s dimension order, carries the first input\'s labels on every axis; the result\'s first axis is the new one labelled by keys and the slice at key b is exactly arrays[b]; without align differing secondary axes give ValueError; concatenate: labels along the axis concatenated in input order, other axes the first input\'s, the cell at position p comes from the input that owns p (locate_block proved correct), secondary-axis check is a precondition of success.',
              note='align=True variants rest on the C06 theorems for the align step (composition validated by correspondence); np.array([...]) / np.concatenate modelled by specification.', tech='Coq proof + vm_compute correspondence', ref='3.12')
+CLAIMED['C08'] = dict(text='Coq theorems (unbounded): a.f(axis=d) drops exactly that axis, keeps the other axis records in order and the metadata, and each result cell is the function applied to the 1-D fibre through that cell in axis order; axis=None / 1-D gives the scalar over the row-major cells; a tuple of dimensions = reduction over the flattened group (C11); d by name or position resolves identically; skipna=False: any NaN in the slice gives NaN (median included); skipna=True: same function on the slice without its NaNs.',
+             note='The numerical functions are exact rational models of NumPy (sum, prod, mean, var, std via variance, min, max, ptp, all, any, median); mean/var/std compared with relative 1e-9; _get_func selection table and percentile (np.percentile) are validated by the oracle against NumPy, not modelled; masked all/any with skipna excluded.', tech='Coq proof + vm_compute correspondence + NumPy oracle', ref='3.8')
+CLAIMED['C09'] = dict(text='Coq theorems (unbounded): cumsum/cumprod keep all axes and equal the prefix sum/product on NaN-free fibres; diff one step = adjacent differences with the first/last label dropped, keepaxis pads NaN on the corresponding side, centered takes successive midpoints, order n = n successive steps; argmin/argmax position on a non-empty NaN-free fibre is in range, extremal and the first such (full induction with the order laws of Q), what is returned is the label at that position (along an axis and for the whole array in row-major order).',
+             note='NaN behaviour of arg-extrema (first NaN wins) and nancum* are validated by correspondence only; default axis=-1 by correspondence.', tech='Coq proof + vm_compute correspondence + NumPy oracle', ref='3.9')
 NOT_YET = {}
 ALL = ['C%02d' % i for i in range(1, 21)]
 def main():
